@@ -277,6 +277,15 @@ def describe(V, L, W, caching=None):
             return "cons/%d/%s/%r" % (n, ",".join(items[:20]), x)
         if hasattr(x, "__self__") and hasattr(x, "__func__"):
             return "bound(%s.%s)" % (val(x.__self__), x.__func__.__name__)
+        import types as _types
+        if isinstance(x, _types.FunctionType):
+            # a function pickled by value is a NEW function object in the copy: it is judged by what it is
+            # (name, code) and by what it does on a probe, not by its address
+            try:
+                probe = x(1)
+            except Exception as exc:  # noqa: BLE001
+                probe = type(exc).__name__
+            return "function(%s, %d bytes of code, probe=%r)" % (x.__qualname__, len(x.__code__.co_code), probe)
         if isinstance(x, (tuple, frozenset, list)):
             tag = shared.setdefault(id(x), len(shared))
             return "%s#%d(%s)" % (type(x).__name__, tag, ",".join(sorted(val(y) for y in x) if isinstance(x, frozenset) else [val(y) for y in x]))
@@ -363,6 +372,10 @@ class C10(Check):
                     more.append("attr V%d blob big:%d:%s" % (c, rng.choice([300, 65535, 65536, 70000, 200000]), rng.choice("sb")))
                 if rng.random() < 0.2:
                     more.append("attr V%d chain cons:%d" % (c, rng.choice([3, 40, 600, 2500])))
+                if byvalue and rng.random() < 0.5:
+                    # (definitions pickled by value are outside the abstract heap of the model: these graphs go
+                    # through the load-and-compare layers only, like the by-value classes)
+                    more.append("attr V%d gfn ghost:%d" % (c, rng.randrange(3)))
                 us_ = [i for i in range(nv) if isinstance(real.inner.V[i], Universe)]
                 if us_ and rng.random() < 0.3:
                     u_ = rng.choice(us_)
